@@ -559,4 +559,172 @@ theorem reconChunk_codewords (cd : Codec) (k m : Nat) (hmds : MDS cd k m)
     simp only [Function.comp]
     congr 1; omega
 
+/-! ### encoder: the loops of encodeDatFile in closed form -/
+
+theorem slicePad_eq_map (D : List Nat) (a len : Nat) :
+    slicePad D a len = (List.range len).map fun t => D.getD (a + t) 0 := by
+  unfold slicePad
+  apply List.ext_getElem
+  · simp; omega
+  · intro i h1 h2
+    simp only [List.length_map, List.length_range] at h2
+    simp only [List.getElem_map, List.getElem_range, List.getElem_append, List.length_take, List.length_drop]
+    split
+    · rename_i h
+      simp only [List.getElem_take, List.getElem_drop]
+      rw [List.getD_eq_getElem?_getD, List.getElem?_eq_getElem (by omega)]; rfl
+    · rename_i h
+      simp only [List.getElem_replicate]
+      rw [List.getD_eq_getElem?_getD, List.getElem?_eq_none (by omega)]; rfl
+
+theorem flatMap_range_blocks {α : Type} (q B : Nat) (g : Nat → Nat → α) :
+    (List.range q).flatMap (fun r => (List.range B).map (g r))
+      = (List.range (q * B)).map (fun p => g (p / B) (p % B)) := by
+  induction q with
+  | zero => simp
+  | succ q ih =>
+    rw [List.range_succ, List.flatMap_append, ih, Nat.add_mul, Nat.one_mul, List.range_add, List.map_append]
+    congr 1
+    simp only [List.flatMap_cons, List.flatMap_nil, List.append_nil, List.map_map]
+    apply List.map_congr_left
+    intro t ht
+    have ht' : t < B := by simpa using ht
+    have hdm := div_mod_block B q t ht'
+    simp only [Function.comp]
+    rw [hdm.1, hdm.2]
+
+theorem rowBlock_eq (D : List Nat) (start B buf i : Nat) (hb : 0 < buf) (hd : buf ∣ B) :
+    rowBlock D start B buf i = (List.range B).map fun t => D.getD (start + B * i + t) 0 := by
+  obtain ⟨q, rfl⟩ := hd
+  unfold rowBlock
+  rw [Nat.mul_div_cancel_left q hb]
+  simp only [slicePad_eq_map]
+  rw [flatMap_range_blocks q buf (fun b t => D.getD (start + b * buf + buf * q * i + t) 0), Nat.mul_comm q buf]
+  apply List.map_congr_left
+  intro p _
+  have := Nat.div_add_mod p buf
+  have hc : p / buf * buf = buf * (p / buf) := Nat.mul_comm _ _
+  congr 1; omega
+
+
+theorem nLargeRows_zero (k L : Nat) (strict : Bool) : nLargeRows k L strict 0 = 0 := by
+  unfold nLargeRows; cases strict <;> simp
+
+theorem encLargeLoop_closed (c : EncCfg) (hkL : 0 < c.k * c.L) :
+    ∀ fuel rem p, rem ≤ fuel →
+      (encLargeLoop c fuel rem p).1 = (List.range (nLargeRows c.k c.L c.strict rem)).map (fun r => p + r * (c.L * c.k)) ∧
+      (encLargeLoop c fuel rem p).2.1 = rem - nLargeRows c.k c.L c.strict rem * (c.L * c.k) ∧
+      (encLargeLoop c fuel rem p).2.2 = p + nLargeRows c.k c.L c.strict rem * (c.L * c.k) := by
+  have hcomm : c.L * c.k = c.k * c.L := Nat.mul_comm _ _
+  intro fuel
+  induction fuel with
+  | zero =>
+    intro rem p hf
+    have : rem = 0 := by omega
+    subst this
+    simp [encLargeLoop, nLargeRows_zero]
+  | succ f ih =>
+    intro rem p hf
+    have hstep := nLargeRows_step c.k c.L c.strict rem hkL
+    unfold encLargeLoop
+    rw [hcomm]
+    cases hg : guardHolds c.strict rem (c.k * c.L) with
+    | false =>
+      rw [hstep.2 hg]; simp
+    | true =>
+      obtain ⟨hq, hge⟩ := hstep.1 hg
+      have hih := ih (rem - c.k * c.L) (p + c.k * c.L) (by omega)
+      rw [hcomm] at hih
+      simp only [if_true]
+      rw [hq, hih.1, hih.2.1, hih.2.2, List.range_succ_eq_map, Nat.add_mul]
+      refine ⟨?_, by omega, by omega⟩
+      simp only [List.map_cons, List.map_map, Nat.zero_mul, Nat.add_zero, List.cons.injEq, true_and]
+      apply List.map_congr_left
+      intro r _
+      have hm : (r + 1) * (c.k * c.L) = r * (c.k * c.L) + c.k * c.L := by rw [Nat.add_mul]; omega
+      simp only [Function.comp, Nat.succ_eq_add_one, hm]
+      omega
+
+theorem ceil_step (rem B : Nat) (hB : 0 < B) (hr : 0 < rem) :
+    (rem + B - 1) / B = (rem - B + B - 1) / B + 1 := by
+  by_cases h : B ≤ rem
+  · have := Nat.div_eq_sub_div hB (show B ≤ rem + B - 1 by omega)
+    have h2 : rem + B - 1 - B = rem - B + B - 1 := by omega
+    rw [this, h2]
+  · have h0 : rem - B = 0 := by omega
+    have h1 : rem + B - 1 = (rem - 1) + B := by omega
+    rw [h0, h1, Nat.add_div_right _ hB, Nat.div_eq_of_lt (show rem - 1 < B by omega)]
+    have : (0 + B - 1) / B = 0 := Nat.div_eq_of_lt (by omega)
+    rw [this]
+
+theorem encSmallLoop_closed (c : EncCfg) (hkS : 0 < c.k * c.S) :
+    ∀ fuel rem p, rem ≤ fuel →
+      encSmallLoop c fuel rem p = (List.range ((rem + c.k * c.S - 1) / (c.k * c.S))).map (fun r => p + r * (c.S * c.k)) := by
+  have hcomm : c.S * c.k = c.k * c.S := Nat.mul_comm _ _
+  intro fuel
+  induction fuel with
+  | zero =>
+    intro rem p hf
+    have : rem = 0 := by omega
+    subst this
+    have hz : (0 + c.k * c.S - 1) / (c.k * c.S) = 0 := Nat.div_eq_of_lt (by omega)
+    rw [hz]; simp [encSmallLoop]
+  | succ f ih =>
+    intro rem p hf
+    unfold encSmallLoop
+    by_cases h0 : 0 < rem
+    · rw [if_pos h0, hcomm, ih (rem - c.k * c.S) (p + c.k * c.S) (by omega), ceil_step rem _ hkS h0,
+        List.range_succ_eq_map]
+      simp only [List.map_cons, List.map_map, Nat.zero_mul, Nat.add_zero, List.cons.injEq, true_and]
+      apply List.map_congr_left
+      intro r _
+      have hm : (r + 1) * (c.k * c.S) = r * (c.k * c.S) + c.k * c.S := by rw [Nat.add_mul]; omega
+      simp only [Function.comp, Nat.succ_eq_add_one, hcomm, hm]
+      omega
+    · rw [if_neg h0]
+      have : rem = 0 := by omega
+      subst this
+      have hz : (0 + c.k * c.S - 1) / (c.k * c.S) = 0 := Nat.div_eq_of_lt (by omega)
+      rw [hz]; simp
+
+
+/-- the encoder model (loops, batches, zero fill) produces exactly the closed-form layout -/
+theorem dataShard_eq_layout (c : EncCfg) (D : List Nat) (i : Nat)
+    (hk : 0 < c.k) (hL : 0 < c.L) (hS : 0 < c.S) (hb : 0 < c.buf) (hbL : c.buf ∣ c.L) (hbS : c.buf ∣ c.S) :
+    dataShard c D i = layoutShard c.k c.L c.S (nLargeRows c.k c.L c.strict D.length)
+      (shardLen c.k c.L c.S c.strict D.length) D i := by
+  have hkL : 0 < c.k * c.L := Nat.mul_pos hk hL
+  have hkS : 0 < c.k * c.S := Nat.mul_pos hk hS
+  have hcL : c.L * c.k = c.k * c.L := Nat.mul_comm _ _
+  have hcS : c.S * c.k = c.k * c.S := Nat.mul_comm _ _
+  have hl := encLargeLoop_closed c hkL D.length D.length 0 (Nat.le_refl _)
+  unfold dataShard encRows
+  simp only [hl.1, hl.2.1, hl.2.2]
+  rw [encSmallLoop_closed c hkS _ _ _ (Nat.le_refl _)]
+  simp only [List.flatMap_append, List.flatMap_map, List.map_map, Function.comp,
+    rowBlock_eq _ _ _ _ _ hb hbL, rowBlock_eq _ _ _ _ _ hb hbS]
+  rw [flatMap_range_blocks _ c.L (fun r t => D.getD (0 + r * (c.L * c.k) + c.L * i + t) 0),
+    flatMap_range_blocks _ c.S (fun r t => D.getD (0 + nLargeRows c.k c.L c.strict D.length * (c.L * c.k) + r * (c.S * c.k) + c.S * i + t) 0)]
+  unfold layoutShard shardLen nSmallRows smallArea
+  rw [List.range_add, List.map_append, List.map_map, hcL]
+  congr 1
+  · apply List.map_congr_left
+    intro p hp
+    have hp' : p < nLargeRows c.k c.L c.strict D.length * c.L := by simpa using hp
+    unfold srcPos
+    rw [if_pos hp']
+    congr 1
+    have : c.L * i = i * c.L := Nat.mul_comm _ _
+    omega
+  · apply List.map_congr_left
+    intro p _
+    simp only [Function.comp]
+    unfold srcPos
+    rw [if_neg (by omega), hcS]
+    congr 1
+    have : c.S * i = i * c.S := Nat.mul_comm _ _
+    have h2 : nLargeRows c.k c.L c.strict D.length * c.L + p - nLargeRows c.k c.L c.strict D.length * c.L = p := by omega
+    rw [h2]
+    omega
+
 end SwV.Lemmas.C06
